@@ -16,7 +16,8 @@ def _mat(cls, n):
         vals = []
         for r in range(n):
             for c in range(n):
-                vals.append(float(k + r + 2) if r == c else float(((r * n + c + k) % 3) - 1) * 0.25)
+                # diagonally dominant for every k (incl. negative): always invertible
+                vals.append(float(abs(k) + r + 2) if r == c else float(((r * n + c + k) % 3) - 1) * 0.25)
         return cls(*vals)
     return mk
 
@@ -47,8 +48,10 @@ _add("SignedCharArray", lambda k: int(k), "int")
 _add("UnsignedCharArray", lambda k: abs(int(k)), "uint")
 _add("UnsignedShortArray", lambda k: abs(int(k)), "uint")
 _add("UnsignedIntArray", lambda k: abs(int(k)), "uint")
-_add("FloatArray", lambda k: k * 0.5, "float")
-_add("DoubleArray", lambda k: k * 0.25, "float")
+# |value| >= 1: array types convert implicitly (FloatArray -> IntArray truncates), and a zero integer divisor
+# is outside the domain of the scalar operation (SIGFPE)
+_add("FloatArray", lambda k: k * 0.5 + (1.0 if k > 0 else -1.0), "float")
+_add("DoubleArray", lambda k: k * 0.25 + (1.0 if k > 0 else -1.0), "float")
 _add("BoolArray", lambda k: bool(k % 2), "bool")
 for _s in ("s", "i", "i64", "f", "d"):
     for _n in (2, 3, 4):
@@ -94,9 +97,11 @@ def kseq(n, a, b, signed=True):
 def build_array(cls, n, a, b, signed=True, masked=False):
     """array of class `cls` with n elements; masked=True builds it as a masked reference into a 2n-element array"""
     t = ARR[cls]
-    if t["base"] in ("uint", "bool"):
+    if t["base"] == "uint":
         signed = False
     ks = kseq(n, a, b, signed)
+    if cls == "BoolArray" and not signed:
+        ks = [1] * n  # as an argument: all true (never a zero divisor after implicit conversion)
     if not masked:
         arr = t["T"](n)
         for i in range(n):
@@ -122,10 +127,12 @@ def build_arg(kind, n, a, b):
         return build_array(what, n, a, b, signed=False, masked=True)
     if tag == "elem":
         t = ARR[what]
+        if what == "BoolArray":
+            return True, None
         return t["mk"](1 + (a + b) % 5), None
     if tag == "py":
         if what == "float":
-            return 0.5 + ((a + b) % 4) * 0.25, None
+            return 1.5 + ((a + b) % 4) * 0.25, None  # >= 1 so that an implicit float->int conversion never yields a zero divisor
         return 1 + (a + b) % 3, None
     raise ValueError(kind)
 
@@ -271,21 +278,44 @@ def scalar_expected(entry, self_elems, arg_vals, arg_kinds, i):
         mm = DUNDER_SCALAR.get(m, m)
         if mm.startswith("__i") and mm not in ("__invert__",):
             # in-place scalar operator: apply to a copy
-            sc = type(s)(s)
+            sc = clone(s)
             r = getattr(sc, mm)(*argi)
             return repr(sc if r is None else r)
         fn = getattr(s, mm)
         if entry["kind"] == "inplace":
-            sc = type(s)(s)
+            sc = clone(s)
             getattr(sc, mm)(*argi)
             return repr(sc)
         return repr(fn(*argi))
     if tag == "func":
         return repr(getattr(imath, m)(*argi))
+    if tag == "scalar" and entry["kind"] == "array":
+        subj = scalar_instance(what, *CTX["ab"])
+        r = getattr(subj, m)(*argi)
+        if isinstance(r, bool):
+            r = int(r)
+        return repr(r)
     raise LookupError("no scalar form")
 
 
+CTX = {"ab": (0, 0)}
+
+
+def clone(x):
+    """independent copy of an element object (elements returned by a[i] may alias the array)"""
+    try:
+        return type(x)(x)
+    except Exception:
+        pass
+    try:
+        import copy
+        return copy.deepcopy(x)
+    except Exception:
+        return x
+
+
 def evaluate(entry, n, a, b, self_masked=False):
+    CTX["ab"] = (a, b)
     """run one catalogued entry on generated data; returns dict(result=canonical list, self_after=..., expected=[...] or None)"""
     tag, _, what = entry["subject"].partition(":")
     keep = []
@@ -297,7 +327,7 @@ def evaluate(entry, n, a, b, self_masked=False):
     if tag == "method":
         subj, ka = build_array(what, n, a, b, signed=True, masked=self_masked)
         keep.append(ka)
-        self_elems = [type(subj[i])(subj[i]) if ARR[what]["base"] == "obj" else subj[i] for i in range(n)]
+        self_elems = [clone(subj[i]) if ARR[what]["base"] == "obj" else subj[i] for i in range(n)]
         fn = getattr(subj, entry["name"])
     elif tag == "func":
         subj, self_elems = None, None
@@ -310,7 +340,7 @@ def evaluate(entry, n, a, b, self_masked=False):
     for v, k in zip(args, kinds):
         if k.startswith(("arr:", "mask:")):
             cls = k.partition(":")[2]
-            arg_elems.append([type(v[i])(v[i]) if ARR[cls]["base"] == "obj" else v[i] for i in range(n)])
+            arg_elems.append([clone(v[i]) if ARR[cls]["base"] == "obj" else v[i] for i in range(n)])
         else:
             arg_elems.append(v)
     before = snapshot(subj) if subj is not None else None
